@@ -124,11 +124,13 @@ func pkgDependent(m dsl.Matcher) {
     confs.append({"all": True, "enable": None, "disable": "#performance", "params": {"ruleguard.rules": rules}, "go": "1.18"})
     # a checker enabled by name while one of its tags is disabled (precedence must agree everywhere)
     confs.append({"all": False, "enable": "hugeParam,dupSubExpr,rangeValCopy,unslice,assignOp", "disable": "#performance", "params": {}, "go": None})
+    # (CGO_ENABLED=0: with a cold build cache the go command would otherwise try to compile runtime/cgo for 386,
+    # which needs 32-bit C headers this image does not have; the analysis driver then skips the package)
     # another target platform in the environment: all front-ends load the packages for it and must agree
     # (sizes compared with thresholds and quoted in messages are the target's)
-    confs.append({"all": True, "enable": None, "disable": None, "params": {}, "go": None, "env": {"GOARCH": "386"}})
-    confs.append({"all": False, "enable": "#performance,#diagnostic", "disable": "", "params": {"hugeParam.sizeThreshold": 20, "rangeValCopy.sizeThreshold": 20, "rangeExprCopy.sizeThreshold": 20}, "go": None, "env": {"GOARCH": "386"}})
-    confs.append({"all": True, "enable": None, "disable": "#opinionated", "params": {}, "go": None, "env": {"GOOS": "windows", "GOARCH": "arm64"}})
+    confs.append({"all": True, "enable": None, "disable": None, "params": {}, "go": None, "env": {"GOARCH": "386", "CGO_ENABLED": "0"}})
+    confs.append({"all": False, "enable": "#performance,#diagnostic", "disable": "", "params": {"hugeParam.sizeThreshold": 20, "rangeValCopy.sizeThreshold": 20, "rangeExprCopy.sizeThreshold": 20}, "go": None, "env": {"GOARCH": "386", "CGO_ENABLED": "0"}})
+    confs.append({"all": True, "enable": None, "disable": "#opinionated", "params": {}, "go": None, "env": {"GOOS": "windows", "GOARCH": "arm64", "CGO_ENABLED": "0"}})
     byname = {i["name"]: i for i in infos}
     pick = r.sample([n for n in names if byname[n]["tags"]], 6)
     confs.append({"all": False, "enable": ",".join(pick + ["unslice", "assignOp"]), "disable": ",".join("#" + byname[n]["tags"][-1] for n in pick[:3]), "params": {}, "go": None})
@@ -208,8 +210,9 @@ func pkgDependent(m dsl.Matcher) {
                 kind = "multiplicity" if sa == sb else "set"
                 diff = sorted(sa ^ sb)[:6]
                 chk = diff[0][3] if diff else "dup"
+                noise = {b2: [l for l in o[b2][1].splitlines() if l.strip() and not LINE_RE.match(l)][-12:] for b2 in ("go-critic", bname)}
                 res.add_violation("front-ends-differ:%s:%s:%s" % (bname, kind, chk), "%s and go-critic report different diagnostics (config %d, %s): only-cli=%d only-%s=%d" % (bname, ci, kind, len(sa - sb), bname, len(sb - sa)),
-                                  dict(case, only_go_critic=sorted(sa - sb)[:5], only_other=sorted(sb - sa)[:5]))
+                                  dict(case, only_go_critic=sorted(sa - sb)[:5], only_other=sorted(sb - sa)[:5], other_output_lines=noise))
         for bname in ("go-critic", "gocritic", "go-critic-analysis"):
             got = parsed[bname]
             if len(got) != len(set(got)):
